@@ -28,10 +28,10 @@ func (c15) Runs(tier string) int {
 func (c15) Describe() core.Description {
 	return core.Description{
 		Level:  "exploration",
-		Rule:   "per run: drawn parameters (LogN 4-8, 1-4 Q and 0-2 P primes of unequal size), N in 1..6 parties, t in 1..N, drawn public points (small / > 2^32 / near 2^63; distinct and non-zero modulo every prime), set-up shares sent over the simulated network (delay/reordering, duplicates, in-transit serialization, aggregation by reference/in place/fresh in arrival order), crashes during or after set-up, then 1-4 reconstruction rounds on long-lived Combiners with a drawn t-subset of survivors, per-party listing orders and differently ordered 'others' lists; about 1 run in 8 enumerates every t-subset. Non-trivial = at least one transport or crash fault fired and at least one reconstruction or refusal oracle evaluated; distinct = distinct choice traces",
+		Rule:   "per run: drawn parameters (LogN 4-8, 1-4 Q and 0-2 P primes of unequal size), N in 1..6 parties, t in 1..N, drawn public points (small / > 2^32 / near 2^63 / just above a prime; distinct non-zero integers; in 1 run of 8 two of them are equal modulo one prime of the chain or one is a multiple of a prime: such sets must be refused, and no single share may be the secret modulo a prime), set-up shares sent over the simulated network (delay/reordering, duplicates, in-transit serialization, aggregation by reference/in place/fresh in arrival order), crashes during or after set-up, then 1-4 reconstruction rounds on long-lived Combiners with a drawn t-subset of survivors, per-party listing orders and differently ordered 'others' lists; about 1 run in 8 enumerates every t-subset. Non-trivial = at least one transport or crash fault fired and at least one reconstruction or refusal oracle evaluated; distinct = distinct choice traces",
 		Real:   []string{"multiparty.Thresholdizer (GenShamirPolynomial, GenShamirSecretShare, AggregateShares)", "multiparty.Combiner (NewCombiner, GenAdditiveShare)", "ShamirSecretShare serialization", "rlwe.KeyGenerator", "ring/ringqp scalar and polynomial arithmetic"},
 		Stub:   []string{"network (simnet: discrete-event transport with delay, reordering, duplication, crash)", "party bookkeeping (who sent what, duplicate suppression)", "entropy source (deterministic crypto/rand.Reader)"},
-		Assume: []string{"public points are distinct and non-zero modulo every prime of Q and P (precondition of Shamir sharing over each Z_q); draws violating it are redrawn", "the active list handed to GenAdditiveShare contains exactly the listed parties, the caller among them", "a crash during set-up aborts the protocol: nothing but absence of panics is asserted then"},
+		Assume: []string{"the active list handed to GenAdditiveShare contains exactly the listed parties, the caller among them", "a crash during set-up aborts the protocol: nothing but absence of panics is asserted then"},
 	}
 }
 
@@ -163,7 +163,37 @@ func (c15) Run(ctx *core.RunCtx) {
 			ctx.Harness("no admissible public point after 50 draws")
 		}
 	}
-	ctx.Event("config %s N=%d t=%d points=%v", spec, N, t, points)
+	// The points above are distinct and non-zero modulo every prime. The property speaks of arbitrary distinct
+	// non-zero points: one run in eight makes two of them congruent modulo one prime of the chain (distinct
+	// integers), or makes one a multiple of a prime. Interpolation is then impossible modulo that prime: the
+	// parties concerned must be refused, and no single share may carry the secret.
+	degenerate := 0 // 1: points[dj] = points[di] modulo dq ; 2: points[dj] = 0 modulo dq
+	di, dj := 0, 0
+	var dq uint64
+	if N >= 2 && ch.Chance("points-degenerate-modulo-a-prime", 1, 8) {
+		dq = moduli[ch.Draw("degenerate-modulus", len(moduli))]
+		dj = 1 + ch.Draw("degenerate-point", N-1)
+		m := uint64(1 + ch.Draw("degenerate-multiple", 3))
+		if dq > (^uint64(0))/8 {
+			m = 1
+		}
+		if ch.Bool("degenerate-zero") {
+			degenerate, points[dj] = 2, dq*m
+		} else {
+			di = ch.Draw("degenerate-partner", dj)
+			degenerate, points[dj] = 1, points[di]%dq+dq*m
+		}
+		for k, y := range points {
+			if k != dj && y == points[dj] {
+				degenerate = 0 // (not distinct as integers: leave the run as it was)
+				points[dj] = y + 1
+			}
+		}
+		if degenerate != 0 {
+			ctx.Count("probe.points-degenerate-modulo-a-prime", 1)
+		}
+	}
+	ctx.Event("config %s N=%d t=%d points=%v degenerate=%d", spec, N, t, points, degenerate)
 	kgen := rlwe.NewKeyGenerator(params)
 	net := simnet.New(ctx, simnet.Config{MaxDelay: []int{0, 5, 50}[ch.Draw("max-delay", 3)], DupNum: ch.Draw("dup-rate", 3), DupDen: 10})
 	for i := 0; i < N; i++ {
@@ -243,6 +273,27 @@ func (c15) Run(ctx *core.RunCtx) {
 			return
 		}
 	}
+	// no single party holds the secret (modulo any prime) when more than one is needed
+	if t > 1 {
+		ctx.Count("oracle.no-single-share-is-the-secret", 1)
+		for _, p := range r.parties {
+			rows := append(append([][]uint64{}, p.acc.Poly.Q.Coeffs...), p.acc.Poly.P.Coeffs...)
+			ideal := append(append([][]uint64{}, idealSK.Value.Q.Coeffs...), idealSK.Value.P.Coeffs...)
+			for i := range rows {
+				same := true
+				for j := range rows[i] {
+					if rows[i][j]%moduli[i] != ideal[i][j]%moduli[i] {
+						same = false
+						break
+					}
+				}
+				if same {
+					ctx.Fail("secrecy", "threshold-share|equals-secret-modulo-a-prime", "with t=%d of N=%d, the threshold share of the party with point %d alone is the ideal secret key modulo the prime %d (the point is a multiple of it): fewer than t parties reconstruct", t, N, uint64(p.point), moduli[i])
+					return
+				}
+			}
+		}
+	}
 	// crashes after set-up
 	alive := make([]int, 0, N)
 	a := ch.Draw("survivors", N+1)
@@ -299,6 +350,16 @@ func (c15) Run(ctx *core.RunCtx) {
 				return false
 			}
 			if err != nil {
+				in := map[int]bool{}
+				for _, x := range subset {
+					in[x] = true
+				}
+				if degenerate == 1 && in[di] && in[dj] || degenerate == 2 && in[dj] && t > 1 {
+					// refused: two of the active points coincide modulo a prime (or one vanishes): no interpolation
+					ctx.Count("probe.degenerate-points-refused", 1)
+					ctx.Event("reconstruction %s subset=%v refused: %v", tag, subset, err)
+					return true
+				}
 				ctx.Fail("reconstruct", "GenAdditiveShare|error", "GenAdditiveShare with exactly t=%d active parties failed: %v", t, err)
 				return false
 			}
